@@ -5,7 +5,7 @@
 From Coq Require Import Arith NArith ZArith List Bool.
 From Verif Require Import Base.Bytes Base.Hash Model.Merkle Model.MerkleSpec Model.TreeStore Model.BridgeStore
   Proofs.Frontier Proofs.Rht Proofs.InitCache Proofs.C01Proofs Proofs.BridgeStoreProofs
-  Proofs.TreeStoreProofs Proofs.TreeStoreCorollaries.
+  Proofs.TreeStoreProofs Proofs.TreeStoreCorollaries Proofs.BridgeReach.
 Import ListNotations.
 Open Scope N_scope.
 
@@ -78,7 +78,43 @@ Theorem C04_store_reorg_as_if_never_seen_roots : forall db1 mem1 db2 mem2 L, Rea
 Proof. exact (same_history_same_roots HT node node_inj zhf Hzh). Qed.
 End Store.
 
+
+(* ================= processor level: the bridge processor model that is compared with the Go code on every run =================
+   `BReach HT node zhf leafh st`: st is reachable from the empty processor by ProcessBlock of well-formed blocks (block number
+   above every recorded one, bridge positions increasing, deposit count < 2^HT) under ANY storage fault, by Reorg and by restart.
+   The executable instance is HT := 32, node := Keccak, zhf := zero table, leafh := bridge_leaf. *)
+Section Processor.
+Variable HT : nat.
+Variable node : N -> N -> N.
+Hypothesis node_inj : forall a b c d, node a b = node c d -> a = c /\ b = d.
+Variable zhf : nat -> N.
+Hypothesis Hzh : forall h, (h <= HT)%nat -> zhf h = zero node 0%N h.
+Variable leafh : bridge_ev -> N.
+Hypothesis Hleaf : forall b, leafh b <> 0%N.
+(* the processor only ever drives its exit tree through the operations of `Reach`: the store invariant holds in every
+   reachable processor state, for the history read off the bridge table; deposit counts in the table are 0,1,2,... *)
+Theorem C04_processor_invariant : forall st, BReach HT node zhf leafh st -> BInv HT node zhf leafh st.
+Proof. exact (BReach_inv HT node node_inj zhf Hzh leafh Hleaf). Qed.
+(* Reorg keeps the processor inside the reachable states (so everything above applies to the reorged node and to its continuation) *)
+Theorem C04_processor_reorg_reachable : forall st b, BReach HT node zhf leafh st -> BReach HT node zhf leafh (reorg st b).
+Proof. intros st b H. apply BR_reorg. exact H. Qed.
+(* two reachable processor states holding the same surviving deposits answer every exit-tree query identically, however they
+   got there (through dropped blocks and Reorg, through failed blocks and retries, through restarts) *)
+Theorem C04_processor_reorg_as_if_never_seen : forall st1 st2, BReach HT node zhf leafh st1 -> BReach HT node zhf leafh st2 ->
+  hist_of leafh (st_db st1) = hist_of leafh (st_db st2) ->
+  t_roots (d_tree (st_db st1)) = t_roots (d_tree (st_db st2)) /\
+  (forall i, exit_root_by_index (st_db st1) i = exit_root_by_index (st_db st2) i) /\
+  (forall h, root_by_ler (st_db st1) h = root_by_ler (st_db st2) h) /\
+  (forall j k, (j < k)%nat -> (k <= length (d_bridges (st_db st1)))%nat ->
+     let root := mroot node 0%N (lf (hist_of leafh (st_db st1))) HT k in
+     Gen.get_proof HT zhf (d_tree (st_db st1)) (N.of_nat j) root = Gen.get_proof HT zhf (d_tree (st_db st2)) (N.of_nat j) root).
+Proof. exact (processor_same_history_same_answers HT node node_inj zhf Hzh leafh Hleaf). Qed.
+End Processor.
+
 Print Assumptions C04_reorg_nested.
+Print Assumptions C04_processor_invariant.
+Print Assumptions C04_processor_reorg_reachable.
+Print Assumptions C04_processor_reorg_as_if_never_seen.
 Print Assumptions C04_store_reorg_as_if_never_seen.
 Print Assumptions C04_store_reorg_as_if_never_seen_roots.
 Print Assumptions C04_reorg_above_tip_identity.
